@@ -41,8 +41,35 @@ fn quant_op() -> BoxedStrategy<QuantOp> {
     .boxed()
 }
 
+/// counts at which small wrapping counters roll over
+fn boundary_count() -> BoxedStrategy<u16> {
+    prop_oneof![
+        3 => proptest::sample::select(vec![254u16, 255, 256, 257, 510, 511, 512, 513, 127, 128, 129, 63, 64, 65]),
+        1 => 1u16..600,
+    ]
+    .boxed()
+}
+
+/// motif: convert, a long burst of scale edits with no conversion in between, forbid the class of the note just
+/// returned, convert the same input again (caches keyed on an edit counter must not go stale)
+fn edit_burst_motif() -> BoxedStrategy<Vec<QuantOp>> {
+    (quant_input(), 0u8..12, boundary_count(), proptest::collection::vec(0u8..12, 0..3), prop_oneof![Just(QuantOp::ConvertSame), (-0.005f32..0.005).prop_map(QuantOp::ConvertNudge)])
+        .prop_map(|(v, note, n, extra, again)| vec![QuantOp::Convert(v), QuantOp::EditBurst { note, n }, QuantOp::ForbidLast(extra), again])
+        .boxed()
+}
+
 pub fn quant_case() -> BoxedStrategy<QuantCase> {
-    proptest::collection::vec(quant_op(), 1..80).prop_map(|ops| QuantCase { ops }).boxed()
+    (proptest::collection::vec(quant_op(), 1..80), prop_oneof![6 => Just(vec![]), 1 => edit_burst_motif()], any::<proptest::sample::Index>())
+        .prop_map(|(mut ops, motif, at)| {
+            if !motif.is_empty() {
+                let pos = at.index(ops.len() + 1);
+                let tail = ops.split_off(pos);
+                ops.extend(motif);
+                ops.extend(tail);
+            }
+            QuantCase { ops }
+        })
+        .boxed()
 }
 
 pub fn replay(property: &str, engine: &str, case: &Value) -> Result<(), Failure> {
